@@ -620,6 +620,9 @@ func r20b(c *core.Ctx) {
 			key := fmt.Sprintf("spawn-holds:%s:%s", core.FuncName(fn), core.Expr(cp.val))
 			var bad []string
 			for _, call := range core.Calls(fn) {
+				if _, isGo := call.(*ssa.Go); isGo {
+					continue // what a spawned function releases is released by the goroutine, not by the spawner
+				}
 				for _, x := range releasedArgs(call, sum) {
 					same := false
 					if cp.cell != nil {
@@ -638,6 +641,9 @@ func r20b(c *core.Ctx) {
 					var kill func(in ssa.Instruction) bool
 					if cp.cell != nil {
 						kill = func(in ssa.Instruction) bool { return in == ssa.Instruction(cp.cell) }
+					} else if def, ok := core.Strip(cp.val).(ssa.Instruction); ok && def.Parent() == fn {
+						// the held SSA value is computed anew on the way (next loop iteration): a different object
+						kill = func(in ssa.Instruction) bool { return in == def }
 					}
 					if core.Reach(fn, cp.spawn, func(in ssa.Instruction) bool { return in == call.(ssa.Instruction) }, kill) != nil && !joinsBeforeReturn(fn, cp) {
 						bad = append(bad, shortCallee(call)+" at "+c.Rel(call.Pos())+" is reachable after the spawn")
